@@ -3,6 +3,7 @@ import collections
 import random
 
 from vf import import_desper
+from vf import session
 from vf.core import Res, HarnessError
 
 ID = 'C07'
@@ -97,6 +98,11 @@ def gen_one(rng, tier, scale=False):
 
 
 def gen_cases(tier, seed):
+    # whole "game sessions" (vf/session.py): the features used together,
+    # judged by the self-consistency invariants of this property
+    for i in range(150 if tier == 'quick' else 16 * 300):
+        yield session.gen(random.Random(f'C07/session/{seed}/{tier}/{i}'),
+                          tier)
     for i in range(5 if tier == 'quick' else 48):
         yield gen_one(random.Random(f'C07/scale/{seed}/{tier}/{i}'), tier,
                       scale=True)
@@ -106,6 +112,8 @@ def gen_cases(tier, seed):
 
 
 def run_case(case):
+    if case.get('scenario') == 'session':
+        return session.run(case, 'C07')
     desper = import_desper()
     res = Res()
     log = []
